@@ -690,8 +690,31 @@ func TestC13Workloads(t *testing.T) {
 				}})
 			}
 		}
+		// Without a registered GCA the workload contains several valid
+		// registrations for different candidates: whatever the interleaving,
+		// exactly one may be answered with success and its key is the GCA
+		// afterwards (the sequential rules allow no other outcome).
+		var regMu sync.Mutex
+		var regWon [][32]byte
 		if !preRegistered {
-			work = append(work, regOp)
+			for i, n := 0, rapid.IntRange(1, 5).Draw(t, "registrations"); i < n; i++ {
+				cand := gca
+				if i > 0 {
+					cand = keyFor(fmt.Sprintf("c13w-gca-%d", i))
+				}
+				work = append(work, c13Work{fmt.Sprintf("register(valid, candidate %d)", i), func(S *world.Server) error {
+					st, _, err := S.Register(cand.Pub, temp)
+					if err != nil {
+						return fmt.Errorf("valid registration: %v", err)
+					}
+					if st == 200 {
+						regMu.Lock()
+						regWon = append(regWon, cand.Pub)
+						regMu.Unlock()
+					}
+					return nil
+				}})
+			}
 			touch["registration"] = 2
 		}
 		workers := rapid.SampledFrom([]int{8, 16, 32}).Draw(t, "goroutines")
@@ -739,6 +762,12 @@ func TestC13Workloads(t *testing.T) {
 		close(errs)
 		for err := range errs {
 			t.Fatalf("C13: operation failed in the workload: %v (panics %+v)", err, server.VerifPanics())
+		}
+		if !preRegistered {
+			if len(regWon) != 1 {
+				t.Fatalf("C13: %d of the concurrent valid registrations were answered with success, every sequential order gives exactly one", len(regWon))
+			}
+			m.GCA = regWon[0]
 		}
 		if oneRotation {
 			if !world.WaitActive(5*time.Second, 5*time.Millisecond, func() bool { return srv.VerifSnapshot().Offset == 2016 }) {
@@ -789,8 +818,8 @@ func TestC13Workloads(t *testing.T) {
 			srv.S.CheckInvariants()
 		}()
 		snap := srv.VerifSnapshot()
-		if snap.GCAAvailable != true || [32]byte(snap.GCAKey) != gca.Pub {
-			t.Fatalf("C13: registration state after the workload: available=%v", snap.GCAAvailable)
+		if snap.GCAAvailable != true || [32]byte(snap.GCAKey) != m.GCA {
+			t.Fatalf("C13: registration state after the workload: available=%v, key %x, the registration answered with success carried %x", snap.GCAAvailable, snap.GCAKey[:4], m.GCA[:4])
 		}
 		if snap.Offset != m.Offset {
 			t.Fatalf("C13: window offset %d after the workload, expected %d", snap.Offset, m.Offset)
